@@ -580,7 +580,8 @@ func c5genStruct(r *Rng, depth int, allowConj, noReg bool) *c5e {
 		n := 2 + r.Intn(2)
 		var es []*c5e
 		for i := 0; i < n; i++ {
-			es = append(es, c5genStruct(r, depth, false, noReg))
+			// operands of every nested conjunction carry optional fields only (see c5genLit)
+			es = append(es, c5genStruct(r, depth, false, true))
 		}
 		return conj(es...)
 	}
@@ -599,9 +600,9 @@ func c5genStruct(r *Rng, depth int, allowConj, noReg bool) *c5e {
 	case 5:
 		return lit(emb(df(l)))
 	case 6:
-		if r.Chance(1, 3) {
-			return cl(df(l))
-		}
+		// (close() applied directly to a definition reference is exercised by the corpus
+		// only: it evaluates its argument on its own, which surfaces bottom-valued required
+		// constraints the model does not represent)
 		return lit(emb(l))
 	}
 	return l
@@ -628,8 +629,11 @@ func c5genLit(r *Rng, depth int, noReg bool) *c5e {
 		switch r.Intn(14) {
 		case 0, 1, 2, 3, 4, 5, 6:
 			m := Pick(r, []string{"", "?", "?", "!"})
-			if noReg {
-				m = "?" // (required arcs count as present for the typo check, too)
+			if noReg || (c5noD > 0 && m == "!") {
+				// required arcs count as present for the typo check, too; and no required
+				// constraints below hidden/definition fields (bottom values there are not
+				// reported by Validate)
+				m = "?"
 			}
 			lab := c5genLabel(r)
 			hid := lab[0] == '_' || lab[0] == '#'
